@@ -65,7 +65,10 @@ class CorrelationAnalyzer(BaseAnalyzer):
         xcorr = np.zeros((tseries_length,
                           tseries_length,
                           t_points * 2 - 1))
-        data = self.input.data
+        # np.correlate accumulates in the type of its operands: integer
+        # (boolean) recordings are correlated as floating point numbers
+        data = np.asarray(self.input.data,
+                          dtype=np.result_type(self.input.data, np.float64))
         for i in range(tseries_length):
             data_i = data[i]
             for j in range(i, tseries_length):
@@ -100,7 +103,10 @@ class CorrelationAnalyzer(BaseAnalyzer):
         xcorr = np.zeros((tseries_length,
                           tseries_length,
                           t_points * 2 - 1))
-        data = self.input.data
+        # np.correlate accumulates in the type of its operands: integer
+        # (boolean) recordings are correlated as floating point numbers
+        data = np.asarray(self.input.data,
+                          dtype=np.result_type(self.input.data, np.float64))
         for i in range(tseries_length):
             data_i = data[i]
             for j in range(i, tseries_length):
